@@ -106,17 +106,17 @@ Proof. exact json_output_is_a_fixed_point. Qed.
 
 (* The two statements above that carry a premise on the spelling of floats, for
    the concrete model of serde_json's serialize_f64 / ryu (theories/JsonFloatModel.v;
-   the premise is discharged in theories/JsonFloatProofs.v). *)
-From XtModel Require Import JsonFloatModel JsonFloatProofs.
+   the premise is discharged in theories/JsonFloatProofs.v and JsonFloatTotalProofs.v for every finite binary64). *)
+From XtModel Require Import JsonFloatModel JsonFloatProofs JsonFloatTotalProofs.
 
 Theorem C06_msgpack_json_msgpack_with_floats :
-  forall (vs : list mval) (js : list jval), Forall2 carries vs js -> Forall (writable ryu_ok) js ->
+  forall (vs : list mval) (js : list jval), Forall2 carries vs js -> Forall (writable f_finite) js ->
     jm_output (json_reader (jwrite_docs json_f64 js)) = flat_map enc_val vs /\
     jm_output (json_slice (jwrite_docs json_f64 js)) = flat_map enc_val vs.
-Proof. exact (msgpack_json_msgpack json_f64 ryu_ok json_f64_reads json_f64_head). Qed.
+Proof. exact (msgpack_json_msgpack json_f64 f_finite json_f64_reads_all json_f64_head_all). Qed.
 
 Theorem C06_json_output_is_a_fixed_point_with_floats :
-  forall js : list jval, Forall (writable ryu_ok) js ->
+  forall js : list jval, Forall (writable f_finite) js ->
     json_of_docs json_f64 (fst (json_reader (jwrite_docs json_f64 js))) = Some (jwrite_docs json_f64 js) /\
     json_of_docs json_f64 (fst (json_slice (jwrite_docs json_f64 js))) = Some (jwrite_docs json_f64 js).
-Proof. exact (json_output_is_a_fixed_point json_f64 ryu_ok json_f64_reads json_f64_head). Qed.
+Proof. exact (json_output_is_a_fixed_point json_f64 f_finite json_f64_reads_all json_f64_head_all). Qed.
